@@ -1,6 +1,6 @@
 #!/bin/bash
 # runs every claimed check on the current /repo tree, one after the other; prints one line per check
-cd /verif
+cd "$(dirname "$0")/.."
 tier=${1:-quick}
 for c in $(python3 -c "import json; print(' '.join(x['property_id'] for x in json.load(open('MANIFEST.json'))['checks']))"); do
   s=$(date +%s)
